@@ -259,7 +259,7 @@ PROPS["C09"] = {
 PROPS["C20"] = {
     "harness": {"kind": "overlay", "pkg": "pkg/p2p/libp2p", "pkgname": "libp2p",
                 "files": ["libp2p/c17_test.go", "libp2p/c04_test.go", "libp2p/timers_test.go", "libp2p/c20_test.go"], "test": "TestVerifC20"},
-    "level_text": "Theorem over all interleavings of the two nodes' steps (asynchronous reliable channel; initiator: write final message, return from Connect, open stream; responder: read+verify final message, register, clear the in-flight marker; responder's stream wrapper: look the peer up, wait for an in-flight handshake of that peer, look again): an invariant (marker cleared implies peer registered) gives that a stream opened after a successful connect is never refused as coming from an unknown peer, however late the responder registers, and a waiting stream is accepted once the responder finished; the wrapper that does not wait (the pinned tree) is refuted by a kernel-evaluated 4-step schedule. Tied to two real services on loopback: the responder's KeySigner.GetAddress (called between reading the final message and registering) is a gate held for chosen delays while the initiator opens 1-3 streams right after Connect returned; plus ungated runs with natural relative speeds and several role pairs.",
+    "level_text": "Theorem over all interleavings of the two nodes' steps (asynchronous reliable channel; initiator: write final message, return from Connect, open stream; responder: read+verify final message, register, clear the in-flight marker; responder's stream wrapper: look the peer up, wait for an in-flight handshake of that peer, look again): an invariant (marker cleared implies peer registered) gives that a stream opened after a successful connect is never refused as coming from an unknown peer, however late the responder registers, and a waiting stream is accepted once the responder finished; the wrapper that does not wait (the pinned tree) is refuted by a kernel-evaluated 4-step schedule. A second, lock-level model (the per-peer in-flight record {count, done} of the repair, any number of other inbound handshake handlers of the same peer beginning / registering / returning at arbitrary moments, the wrapper's four separately locked steps) carries the same theorem by an invariant over arbitrary step lists, plus: from every reachable state the schedule in which the handlers return ends with the stream accepted (the wait cannot deadlock for any number of concurrent handlers). Tied to two real services on loopback: the responder's KeySigner.GetAddress (called between reading the final message and registering) is a gate held for chosen delays while the initiator opens 1-3 streams right after Connect returned; plus ungated runs with natural relative speeds and several role pairs.",
     "level_note": "Trusted: Lean kernel; harness; real sockets, libp2p stream negotiation and the Go scheduler are sampled, not modelled (partial): the model's steps are the protocol-level events only. Honest initiator (its final message verifies) is the scope of the statement.",
     "nontrivial_rule": "distinct (tag, delay, streams, role pair) cells",
     "class_of": lambda c, r: json.dumps(c["in"], sort_keys=True),
